@@ -20,6 +20,7 @@ func init() {
 			{ID: "R-C03-5", Doc: "live queue and per-type consumption wiring", Min: 12, Run: ruleC03_5},
 			{ID: "R-C03-6", Doc: "MATCH consumes only under its guards", Min: 4, Run: ruleC03_6},
 			{ID: "R-C03-7", Doc: "MATCH destination selection", Min: 3, Run: ruleC03_7},
+			{ID: "R-C03-9", Doc: "MATCH prefixes are directory prefixes (normalised with a trailing slash); the base path is the plain remainder", Min: 3, Run: ruleC03_9},
 			a1Rule(6, "in_toto.VerifyArtifacts", "in_toto.verifyMatchRule", "in_toto.UnpackRule", "in_toto.validateArtifactRule", "in_toto.validateSliceOfArtifactRules", "in_toto.validateSupplyChainItem"),
 		}})
 }
@@ -712,4 +713,80 @@ func ruleC03_7(c *Ctx) {
 			c.check(isNilConst(e), R, fn, "other destination types select nothing", instrPos(pb.Instrs[0]), "nil", "an unknown destination type selects "+short(o))
 		}
 	}
+}
+
+// R-C03-9: the source/destination prefixes of a MATCH rule are normalised to end in "/", so that the prefix test is
+// a directory test and not a string-prefix test, and the path handed to the matcher is exactly the remainder.
+func ruleC03_9(c *Ctx) {
+	const R = "R-C03-9"
+	f := c.lookup("in_toto.verifyMatchRule")
+	if f == nil {
+		c.undecided(R, "in_toto.verifyMatchRule", "anchor", 0, "not found")
+		return
+	}
+	fn := fname(f)
+	// a store ruleData[prefix] = <cleaned> + "/" under !HasSuffix(<cleaned>, "/"), for prefix ranging over both names
+	okSlash := false
+	var names []string
+	for _, b := range f.Blocks {
+		for _, in := range b.Instrs {
+			mu, ok := in.(*ssa.MapUpdate)
+			if !ok || org(mu.Map) != "p0" {
+				continue
+			}
+			bo, ok := resolve(mu.Value, mu).(*ssa.BinOp)
+			if !ok || bo.Op != token.ADD {
+				continue
+			}
+			if s, isS := constString(bo.Y); !isS || s != "/" {
+				continue
+			}
+			for _, hs := range callsIn(f, "strings.HasSuffix") {
+				if s, isS := constString(hs.Common().Args[1]); isS && s == "/" && c.condAt(hs.Value(), false, mu.Block()) {
+					okSlash = true
+				}
+			}
+			// which keys: elements of a slice literal
+			derives(mu.Key, func(v ssa.Value) bool {
+				if al, ok := v.(*ssa.Alloc); ok && al.Comment == "slicelit" {
+					for _, r := range *al.Referrers() {
+						if ia, ok := r.(*ssa.IndexAddr); ok {
+							for _, rr := range *ia.Referrers() {
+								if st, ok := rr.(*ssa.Store); ok {
+									if s, isS := constString(st.Val); isS {
+										names = append(names, s)
+									}
+								}
+							}
+						}
+					}
+					return true
+				}
+				return false
+			}, false)
+		}
+	}
+	sort.Strings(names)
+	c.check(okSlash && strings.Join(names, ",") == "dstPrefix,srcPrefix", R, fn, "non-empty prefixes end in a slash", f.Pos(), "ruleData[p] += \"/\" unless it already ends in one, for srcPrefix and dstPrefix", "the MATCH prefixes are not normalised to end in \"/\" (prefixes normalised: "+strings.Join(names, ",")+"): the prefix test is a plain string-prefix test, so `IN src` also covers `srcgen/x`")
+	// the matched path is exactly TrimPrefix(srcPath, srcPrefix)
+	n := 0
+	for _, m := range callsIn(f, "in_toto.match") {
+		n++
+		base := resolve(m.Common().Args[1], m)
+		k, ok := base.(*ssa.Call)
+		okBase := ok && calleeName(k) == "strings.TrimPrefix" && org(k.Call.Args[0]) == "key(p2)" && org(k.Call.Args[1]) == `p0{const("srcPrefix")}`
+		c.check(okBase, R, fn, "matched path = source path with exactly the source prefix removed", m.Pos(), "strings.TrimPrefix(srcPath, ruleData[srcPrefix])", "the path handed to the matcher is "+short(org(base))+" (further stripping changes which artifacts are located under the prefix)")
+	}
+	if n == 0 {
+		c.bad(R, fn, "match call", f.Pos(), "no pattern match")
+	}
+	// prefix membership uses the normalised prefix on the queue element
+	okHP := false
+	for _, hp := range callsIn(f, "strings.HasPrefix") {
+		a := hp.Common().Args
+		if org(a[0]) == "key(p2)" && org(a[1]) == `p0{const("srcPrefix")}` {
+			okHP = true
+		}
+	}
+	c.check(okHP, R, fn, "prefix membership is tested on the queue element with the normalised prefix", f.Pos(), "strings.HasPrefix(srcPath, ruleData[srcPrefix])", "no membership test of the queue element against the normalised source prefix")
 }
